@@ -83,6 +83,27 @@ func snapfailColl(shape int) *column.Collection {
 		for i := 0; i < 12; i++ {
 			offs = append(offs, uint32(i), 16384+uint32(i), 32768+uint32(i))
 		}
+	case 3:
+		// one chunk whose state exceeds the 1 MB block of the s2 writer: the compressor hands
+		// blocks to the destination in the middle of a chunk, not only at the final flush
+		c.Query(func(txn *column.Txn) error {
+			x := uint64(88172645463325252)
+			for i := 0; i < 16384; i++ {
+				txn.Insert(func(r column.Row) error {
+					var b [96]byte
+					for j := range b {
+						x ^= x << 13
+						x ^= x >> 7
+						x ^= x << 17
+						b[j] = 'a' + byte(x%26)
+					}
+					r.SetInt32("n", int32(i))
+					r.SetString("s", string(b[:]))
+					return nil
+				})
+			}
+			return nil
+		})
 	}
 	if len(offs) > 0 {
 		insertMarkers(c, offs...)
@@ -127,14 +148,33 @@ func runSnapfail(rep *Report, replay string) {
 			rep.Violations = append(rep.Violations, v)
 		}
 	}
-	shapes := []string{"empty", "one-chunk", "three-chunks"}
-	for shape := 0; shape < 3; shape++ {
+	shapes := []string{"empty", "one-chunk", "three-chunks", "big-chunk", "one-chunk+commit", "three-chunks+commit"}
+	for si := 0; si < len(shapes); si++ {
+		shape := si
+		withCommit := si >= 4 // a transaction commits while the snapshot is being written: the recorded log is not empty
+		if withCommit {
+			shape = si - 3
+		}
 		c := snapfailColl(shape)
+		hook := func(w *failWriter) func(string) {
+			return func(p string) {
+				if p == "s:opened" && withCommit {
+					c.QueryAt(0, func(r column.Row) error { r.SetInt32("n", 4242); return nil })
+				}
+				if p == "s:closed" && w != nil {
+					w.phaseCopy = true
+				}
+			}
+		}
+		stuck := false
 		// size of a healthy snapshot and number of write calls
 		var probe failWriter
 		probe.budget = -1
-		if err := c.Snapshot(&probe); err != nil {
-			addV(fmt.Sprintf("[%s] Snapshot to a healthy writer failed: %v", shapes[shape], err), nil)
+		column.VerifSetYield(hook(nil))
+		perr := c.Snapshot(&probe)
+		column.VerifSetYield(nil)
+		if perr != nil {
+			addV(fmt.Sprintf("[%s] Snapshot to a healthy writer failed: %v", shapes[si], perr), nil)
 			c.Close()
 			continue
 		}
@@ -151,6 +191,12 @@ func runSnapfail(rep *Report, replay string) {
 		if rep.Tier != "thorough" && size > 300 {
 			step = size / 150
 		}
+		if shape == 3 {
+			step = size / 40
+			if rep.Tier == "thorough" {
+				step = size / 400
+			}
+		}
 		for n := 0; n <= size+1; n += step {
 			faults = append(faults, fault{0, n, false}, fault{0, n, true})
 		}
@@ -159,36 +205,32 @@ func runSnapfail(rep *Report, replay string) {
 			reps = 3
 		}
 		fd0 := countFds()
-		for round := 0; round < reps; round++ {
+		for round := 0; round < reps && !stuck; round++ {
 			for _, f := range faults {
 				rep.Cases++
-				script := []string{"shape " + shapes[shape], fmt.Sprintf("fail call=%d budget=%d forever=%v", f.call, f.budget, f.forever)}
+				script := []string{"shape " + shapes[si], fmt.Sprintf("fail call=%d budget=%d forever=%v", f.call, f.budget, f.forever)}
 				w := &failWriter{failAtCall: f.call, budget: f.budget, forever: f.forever}
-				column.VerifSetYield(func(p string) {
-					if p == "s:closed" {
-						w.phaseCopy = true
-					}
-				})
+				column.VerifSetYield(hook(w))
 				fdB, tmpB := countFds(), countTemps()
 				err := c.Snapshot(w)
 				column.VerifSetYield(nil)
 				fdA, tmpA := countFds(), countTemps()
 				failed := w.failures > 0
-				rep.count(fmt.Sprintf("%s:writer-failed=%v", shapes[shape], failed))
+				rep.count(fmt.Sprintf("%s:writer-failed=%v", shapes[si], failed))
 				switch {
 				case failed && err == nil:
-					addV(fmt.Sprintf("[%s] the destination writer failed (call %d, %d bytes accepted) but Snapshot returned nil", shapes[shape], w.calls, w.buf.Len()), script)
+					addV(fmt.Sprintf("[%s] the destination writer failed (call %d, %d bytes accepted) but Snapshot returned nil", shapes[si], w.calls, w.buf.Len()), script)
 				case !failed && err != nil:
-					addV(fmt.Sprintf("[%s] the destination writer never failed but Snapshot returned %v", shapes[shape], err), script)
+					addV(fmt.Sprintf("[%s] the destination writer never failed but Snapshot returned %v", shapes[si], err), script)
 				}
 				if c.VerifRecording() {
-					addV(fmt.Sprintf("[%s] after Snapshot returned (err=%v) the recorder is still installed: later snapshots are refused and commits keep appending to it", shapes[shape], err), script)
+					addV(fmt.Sprintf("[%s] after Snapshot returned (err=%v) the recorder is still installed: later snapshots are refused and commits keep appending to it", shapes[si], err), script)
 				}
 				if tmpA != tmpB {
-					addV(fmt.Sprintf("[%s] Snapshot (err=%v) left %d temporary file(s) behind", shapes[shape], err, tmpA-tmpB), script)
+					addV(fmt.Sprintf("[%s] Snapshot (err=%v) left %d temporary file(s) behind", shapes[si], err, tmpA-tmpB), script)
 				}
 				if fdA != fdB {
-					addV(fmt.Sprintf("[%s] Snapshot (err=%v) left %d open file descriptor(s) behind", shapes[shape], err, fdA-fdB), script)
+					addV(fmt.Sprintf("[%s] Snapshot (err=%v) left %d open file descriptor(s) behind", shapes[si], err, fdA-fdB), script)
 				}
 				// the model's prediction for this fault class
 				lines = append(lines, fmt.Sprintf("snapres 0 0 %d %d", b2i(w.failedInState), b2i(w.failedInCopy)))
@@ -197,27 +239,50 @@ func runSnapfail(rep *Report, replay string) {
 					rep.DistinctNontrivial++
 				}
 				// the collection keeps working: a transaction commits, a healthy snapshot restores
-				if rep.Cases%7 == 0 || rep.Tier == "thorough" {
+				if rep.Cases%7 == 0 || rep.Tier == "thorough" || shape == 3 {
+					// every chunk still accepts a write (a latch leaked by the failed snapshot would block it)
+					done := make(chan struct{})
+					go func() {
+						for ch := uint32(0); ch < 3; ch++ {
+							c.QueryAt(ch*16384, func(r column.Row) error { r.SetInt32("n", 4243); return nil })
+						}
+						close(done)
+					}()
+					select {
+					case <-done:
+					case <-time.After(10 * time.Second):
+						addV(fmt.Sprintf("[%s] after Snapshot returned (err=%v) a transaction did not commit within 10 s: a lock is still held", shapes[si], err), script)
+						stuck = true
+					}
+					if stuck {
+						break
+					}
+					if shape == 3 && ((rep.Tier != "thorough" && rep.Cases%41 != 0) || (rep.Tier == "thorough" && rep.Cases%13 != 0)) {
+						continue // the full restore comparison of the big collection is sampled
+					}
 					before := c.Count()
 					idx, ierr := c.Insert(func(r column.Row) error { r.SetInt32("n", 77); return nil })
 					if ierr != nil || c.Count() != before+1 {
-						addV(fmt.Sprintf("[%s] after a failed snapshot an insert did not commit normally (err=%v)", shapes[shape], ierr), script)
+						addV(fmt.Sprintf("[%s] after a failed snapshot an insert did not commit normally (err=%v)", shapes[si], ierr), script)
 					}
 					c.DeleteAt(idx)
 					var good bytes.Buffer
 					if gerr := c.Snapshot(&good); gerr != nil {
-						addV(fmt.Sprintf("[%s] after a failed snapshot, Snapshot to a healthy writer failed: %v", shapes[shape], gerr), script)
+						addV(fmt.Sprintf("[%s] after a failed snapshot, Snapshot to a healthy writer failed: %v", shapes[si], gerr), script)
 					} else {
 						q := snapfailColl(0)
 						if rerr := q.Restore(bytes.NewReader(good.Bytes())); rerr != nil {
-							addV(fmt.Sprintf("[%s] the healthy snapshot taken after a failed one does not restore: %v", shapes[shape], rerr), script)
+							addV(fmt.Sprintf("[%s] the healthy snapshot taken after a failed one does not restore: %v", shapes[si], rerr), script)
 						} else if snapDump(q) != snapDump(c) {
-							addV(fmt.Sprintf("[%s] the healthy snapshot taken after a failed one restores to a different state", shapes[shape]), script)
+							addV(fmt.Sprintf("[%s] the healthy snapshot taken after a failed one restores to a different state", shapes[si]), script)
 						}
 						q.Close()
 					}
 				}
 			}
+		}
+		if stuck {
+			continue // the collection is wedged; it is abandoned (not closed)
 		}
 		// a second snapshot while one is in progress is refused and leaves nothing behind
 		var inner error
@@ -233,18 +298,18 @@ func runSnapfail(rep *Report, replay string) {
 		column.VerifSetYield(nil)
 		rep.Cases++
 		if inner == nil {
-			addV(fmt.Sprintf("[%s] a snapshot requested while another one is in progress was not refused", shapes[shape]), nil)
+			addV(fmt.Sprintf("[%s] a snapshot requested while another one is in progress was not refused", shapes[si]), nil)
 		}
 		if oerr != nil || countFds() != fdB || countTemps() != tmpB || c.VerifRecording() {
-			addV(fmt.Sprintf("[%s] a refused concurrent snapshot disturbed the running one or leaked (outer err=%v, fd %+d, temp %+d, recorder=%v)", shapes[shape], oerr, countFds()-fdB, countTemps()-tmpB, c.VerifRecording()), nil)
+			addV(fmt.Sprintf("[%s] a refused concurrent snapshot disturbed the running one or leaked (outer err=%v, fd %+d, temp %+d, recorder=%v)", shapes[si], oerr, countFds()-fdB, countTemps()-tmpB, c.VerifRecording()), nil)
 		}
 		lines = append(lines, "snapres 1 0 0 0")
 		want = append(want, fmt.Sprintf("rec=%v dfd=%d dtemp=%d err=%v", true, 0, 0, inner != nil))
 		if fd1 := countFds(); fd1 != fd0 {
-			addV(fmt.Sprintf("[%s] %d snapshots changed the number of open descriptors from %d to %d", shapes[shape], len(faults)*reps, fd0, fd1), nil)
+			addV(fmt.Sprintf("[%s] %d snapshots changed the number of open descriptors from %d to %d", shapes[si], len(faults)*reps, fd0, fd1), nil)
 		}
 		if len(rep.Samples) < 3 {
-			rep.Samples = append(rep.Samples, map[string]interface{}{"shape": shapes[shape], "snapshot_bytes": size, "write_calls": calls, "faults_injected": len(faults) * reps})
+			rep.Samples = append(rep.Samples, map[string]interface{}{"shape": shapes[si], "snapshot_bytes": size, "write_calls": calls, "faults_injected": len(faults) * reps})
 		}
 		c.Close()
 	}
@@ -258,7 +323,7 @@ func runSnapfail(rep *Report, replay string) {
 		rep.Violations = append(rep.Violations, v)
 	}
 	rep.Lines = len(lines)
-	rep.Rule = "for an empty, a one-chunk and a three-chunk collection: the destination writer fails at every write call index k (1..calls+1) and at byte budgets n (every n for small snapshots / thorough tier, ~150 evenly spaced otherwise), fail-once and fail-forever; after every call: error iff the writer failed, recorder released, /proc/self/fd and the private TMPDIR unchanged, and (sampled) a transaction commits and a healthy snapshot restores to the same state; a second snapshot during a running one is refused without leak; each call's observed (recorder, fd delta, temp delta, error) is compared with the Lean resource model; non-trivial = calls in which the writer actually failed"
+	rep.Rule = "for an empty, a one-chunk, a three-chunk collection, a collection whose single chunk exceeds the 1 MB s2 block (the destination is written to in the middle of a chunk), and the one-/three-chunk collections with a transaction committing while the snapshot is written (non-empty recorded log): the destination writer fails at every write call index k (1..calls+1) and at byte budgets n (every n for small snapshots / thorough tier, ~150 evenly spaced otherwise), fail-once and fail-forever; after every call: error iff the writer failed, recorder released, /proc/self/fd and the private TMPDIR unchanged, and (sampled; always for the big chunk) a write to every chunk commits within 10 s, an insert commits and a healthy snapshot restores to the same state; a second snapshot during a running one is refused without leak; each call's observed (recorder, fd delta, temp delta, error) is compared with the Lean resource model; non-trivial = calls in which the writer actually failed"
 }
 
 func b2i(b bool) int {
